@@ -47,6 +47,42 @@ func c09Stmts() []*Stmt {
 	}
 }
 
+// c09Wide(i) is a 590-byte key unique per i: about six of them fill one skip-list node, so deleting a run
+// of them empties index nodes (DeallocatePage) and re-inserting grows the heap over the freed page ids.
+func c09Wide(i int) string { return fmt.Sprintf("%s%03d", strings.Repeat("W", 587), i) }
+
+func c09WideRows(from, n int) [][]any {
+	var rows [][]any
+	for i := from; i < from+n; i++ {
+		rows = append(rows, []any{int32(i), c09Wide(i)})
+	}
+	return rows
+}
+
+// c09DeallocStmts: the alphabet of the "dealloc" seed (a table whose index spans several nodes): bulk
+// delete (empties index nodes), bulk insert (allocates heap and index pages, reusing deallocated ids),
+// and single-row statements in between.
+func c09DeallocStmts() []*Stmt {
+	as := []string{"a", "s"}
+	return []*Stmt{
+		{Kind: "delete", Table: "t1", Where: Leaf{"a", ">=", int32(12)}},
+		{Kind: "insert", Table: "t1", Cols: as, Rows: c09WideRows(30, 8)},
+		{Kind: "insert", Table: "t1", Cols: as, Rows: [][]any{{int32(1), "x"}}},
+		{Kind: "delete", Table: "t1", Where: Leaf{"a", "<=", int32(11)}},
+		{Kind: "update", Table: "t1", Set: []SetItem{{"s", "w"}}, Where: Leaf{"a", "=", int32(30)}},
+	}
+}
+
+func c09DeallocDomain(td *TableDef, c ColDef) []any {
+	switch c.Name {
+	case "a":
+		return []any{int32(1), int32(10), int32(12), int32(23), int32(30), int32(37)}
+	case "s":
+		return []any{"w", "x", c09Wide(10), c09Wide(23), c09Wide(37)}
+	}
+	return nil
+}
+
 func c09Domain(td *TableDef, c ColDef) []any {
 	switch c.Name {
 	case "a":
@@ -83,6 +119,13 @@ func c09Cfg(p c09Params) *WorldCfg {
 			cfg.SeedStmts = append(cfg.SeedStmts, &Stmt{Kind: "insert", Table: "t1", Cols: []string{"a", "s"}, Rows: [][]any{{int32(i % 4), c09Long}}})
 		}
 	}
+	domain := c09Domain
+	if p.Seed == "dealloc" {
+		cfg.SeedCreate = []string{"t1"}
+		cfg.SeedStmts = []*Stmt{{Kind: "insert", Table: "t1", Cols: []string{"a", "s"}, Rows: c09WideRows(10, 14)}}
+		cfg.Stmts = c09DeallocStmts()
+		domain = c09DeallocDomain
+	}
 	cfg.Ops = func(w *World) []string {
 		var ops []string
 		for i, s := range w.cfg.Stmts {
@@ -91,6 +134,9 @@ func c09Cfg(p c09Params) *WorldCfg {
 			}
 		}
 		for _, t := range []string{"t1", "t2"} {
+			if p.Seed == "dealloc" {
+				break
+			}
 			if t == "t2" && w.cfg.MemKB < 64 {
 				continue // a 32 KB pool cannot hold the permanently pinned index pages of two tables (the engine panics by design)
 			}
@@ -106,7 +152,7 @@ func c09Cfg(p c09Params) *WorldCfg {
 	var before map[string]string
 	cfg.Before = func(w *World, op string) *core.Violation {
 		if op == "restart:clean" {
-			a, v := w.Answers(c09Domain, true)
+			a, v := w.Answers(domain, true)
 			if v != nil {
 				// the battery itself fails before the shutdown: not a C09 matter, end this branch quietly
 				before = nil
@@ -120,7 +166,7 @@ func c09Cfg(p c09Params) *WorldCfg {
 		if op != "restart:clean" || before == nil {
 			return nil
 		}
-		after, v := w.Answers(c09Domain, true)
+		after, v := w.Answers(domain, true)
 		if v != nil {
 			v.Signature = "c09/after-reopen/" + strings.TrimPrefix(v.Signature, "c09/")
 			return v
@@ -159,14 +205,23 @@ func init() {
 			if c.Thorough() {
 				depth = 6
 			}
+			type ms struct {
+				mem  int
+				seed string
+			}
+			var combos []ms
 			for _, mem := range []int{128, 32} {
 				for _, seed := range []string{"empty", "t1", "t1-2pages"} {
-					p := c09Params{MemKB: mem, Seed: seed}
-					cfg := c09Cfg(p)
-					core.BFS(c, core.SeqConfig{Name: fmt.Sprintf("c09/%s/mem%d", seed, mem), Params: p,
-						Fresh: func() core.Instance { return NewWorld(c09Cfg(p)) }, MaxDepth: depth, SplitDepth: 1})
-					_ = cfg
+					combos = append(combos, ms{mem, seed})
 				}
+			}
+			// "dealloc": with 10 or 12 frames the pages of emptied index nodes are evicted and their ids are
+			// reused for heap pages; with 32 frames they stay flagged in the pool until the restart
+			combos = append(combos, ms{40, "dealloc"}, ms{48, "dealloc"}, ms{128, "dealloc"})
+			for _, cb := range combos {
+				p := c09Params{MemKB: cb.mem, Seed: cb.seed}
+				core.BFS(c, core.SeqConfig{Name: fmt.Sprintf("c09/%s/mem%d", cb.seed, cb.mem), Params: p,
+					Fresh: func() core.Instance { return NewWorld(c09Cfg(p)) }, MaxDepth: depth, SplitDepth: 1})
 			}
 		},
 		Replay: func(raw json.RawMessage) (string, bool) {
